@@ -145,6 +145,16 @@ func (g *GoTree) node(n *syntax.RegexNode, rtl bool) (string, bool) {
 		}
 	}
 	switch n.T {
+	case syntax.NtAlternate, syntax.NtConcatenate, syntax.NtLoop, syntax.NtLazyloop, syntax.NtCapture, syntax.NtGroup, syntax.NtAtomic,
+		syntax.NtBackRefCond, syntax.NtExprCond:
+		// an interior node whose direction bit contradicts its position (e.g. the Loop of `(?<=a){2}`,
+		// which keeps the lookbehind's bit): the analyses read that bit, the specification has no place for it
+		if nodeRTL != rtl {
+			g.Unsupported = fmt.Sprintf("direction bit of interior node type %d contradicts its position", n.T)
+			return "", false
+		}
+	}
+	switch n.T {
 	case syntax.NtOne, syntax.NtNotone, syntax.NtSet:
 		if !leafDir() {
 			return "", false
